@@ -230,6 +230,32 @@ def breakpoints(exits_or_terms, lo, hi, extra=()):
     return sorted(pts)
 
 
+def canon(t):
+    """canonical form for propositional reasoning: a != b -> not (a == b); not in -> not in; operands of == ordered"""
+    if isinstance(t, tuple) and t and t[0] == 'cmp':
+        op, a, b = t[1], t[2], t[3]
+        if op in ('==', '!='):
+            try:
+                if repr(a) > repr(b):
+                    a, b = b, a
+            except Exception:
+                pass
+            base = ('cmp', '==', a, b)
+            return base if op == '==' else ('not', base)
+        if op == 'not in':
+            return ('not', ('cmp', 'in', a, b))
+        if op == 'is not':
+            return ('not', ('cmp', 'is', a, b))
+        return t
+    if isinstance(t, tuple) and t and t[0] == 'not':
+        return ('not', canon(t[1]))
+    if isinstance(t, tuple) and t and t[0] == 'bool':
+        return ('bool', t[1], tuple(canon(x) for x in t[2]))
+    if isinstance(t, tuple) and t and t[0] == 'cond':
+        return ('cond', canon(t[1]), canon(t[2]), canon(t[3]))
+    return t
+
+
 def _atoms(t, out):
     if isinstance(t, tuple) and t and t[0] == 'not':
         _atoms(t[1], out)
@@ -258,18 +284,81 @@ def _peval(t, asg):
     return asg[t]
 
 
-def satisfiable(pc, extra=()):
+def _peval3(t, asg):
+    """three-valued evaluation under a partial assignment (None = unknown)"""
+    if isinstance(t, tuple) and t and t[0] == 'not':
+        v = _peval3(t[1], asg)
+        return None if v is None else (not v)
+    if isinstance(t, tuple) and t and t[0] == 'bool':
+        unknown = False
+        if t[1] == 'and':
+            for x in t[2]:
+                v = _peval3(x, asg)
+                if v is False:
+                    return False
+                if v is None:
+                    unknown = True
+            return None if unknown else True
+        for x in t[2]:
+            v = _peval3(x, asg)
+            if v is True:
+                return True
+            if v is None:
+                unknown = True
+        return None if unknown else False
+    if isinstance(t, tuple) and t and t[0] == 'cond':
+        c = _peval3(t[1], asg)
+        if c is True:
+            return _peval3(t[2], asg)
+        if c is False:
+            return _peval3(t[3], asg)
+        a, b = _peval3(t[2], asg), _peval3(t[3], asg)
+        return a if a == b and a is not None else None
+    if t is True or t is False or t is None:
+        return bool(t)
+    return asg.get(t)
+
+
+def satisfiable(pc, extra=(), limit=200000):
     """Propositional satisfiability of a path condition [(term, polarity)] plus extra [(term, polarity)], treating every
-    non-boolean-connective subterm as an independent atom (sound for 'is this combination possible' only in the
-    direction UNSAT => impossible)."""
+    subterm that is not a boolean connective as an independent atom (so UNSAT => the combination is impossible; SAT may be
+    spurious). Backtracking search with three-valued evaluation; gives up (returns True) after ``limit`` steps."""
+    forms = [(canon(t), pol) for t, pol in list(pc) + list(extra)]
     atoms = []
-    for t, pol in list(pc) + list(extra):
+    for t, pol in forms:
         _atoms(t, atoms)
-    if len(atoms) > 16:
-        return True
-    import itertools
-    for vals in itertools.product((False, True), repeat=len(atoms)):
-        asg = dict(zip(atoms, vals))
-        if all(_peval(t, asg) == pol for t, pol in list(pc) + list(extra)):
+    steps = [0]
+
+    def status(asg):
+        unknown = False
+        for t, pol in forms:
+            v = _peval3(t, asg)
+            if v is None:
+                unknown = True
+            elif v != pol:
+                return False
+        return None if unknown else True
+
+    def search(i, asg):
+        steps[0] += 1
+        if steps[0] > limit:
             return True
-    return False
+        st = status(asg)
+        if st is False:
+            return False
+        if st is True:
+            return True
+        # next unassigned atom
+        while i < len(atoms) and atoms[i] in asg:
+            i += 1
+        if i >= len(atoms):
+            return True
+        a = atoms[i]
+        for val in (True, False):
+            asg[a] = val
+            if search(i + 1, asg):
+                del asg[a]
+                return True
+            del asg[a]
+        return False
+    return search(0, {})
